@@ -178,6 +178,19 @@ func (s *Spec) Apply(op Op) (must, may []Emit) {
 		case sEnded:
 			may = append(may, Emit{op.I, op.J, ss.login})
 		}
+	case "X":
+		// an extra event of an arbitrary record type (never LOGIN or CRED_DISP): like any event
+		def := s.defs[op.I]
+		ss := &s.sess[op.I]
+		if !tracked(def.ID) {
+			return nil, nil
+		}
+		switch ss.status {
+		case sBound:
+			must = append(must, Emit{op.I, -1, ss.login})
+		case sEnded:
+			may = append(may, Emit{op.I, -1, ss.login})
+		}
 	case "CU", "CR", "C":
 		if op.K != "CR" {
 			for si := range s.sess {
